@@ -99,8 +99,9 @@ def digit_table_rows(K, A):
     fid = inh(A, "byte_to_digit")
     inst = F.find_instance(fid, ["N", "true"])
     if inst is None:
-        return [core.Ob("%s:G:%s:%s:table" % (PROP, K.config, fid), PROP, "G", K.config, fid, core.UNDECIDED,
-                        "the byte-to-digit helper is not a separate function any more; the table is not decided")]
+        # one obligation per byte in every case: the enumerated count must not depend on the helper's existence
+        return [core.Ob("%s:G:%s:%s:byte_%02x" % (PROP, K.config, fid, b), PROP, "G", K.config, fid, core.UNDECIDED,
+                        "the byte-to-digit helper is not a separate function any more; the table is not decided") for b in range(256)]
 
     def want(b):
         c = chr(b)
@@ -139,7 +140,7 @@ def sign_rows(K, A):
                 if v == 0:
                     break
             return ("-" if neg else "") + s_
-        t = ["0", "-0", "+0", "7", "-7", "+7", "007", "+007", "-007", num(hi), "+" + num(hi), num(hi + 1), "000" + num(hi),
+        t = ["", "0", "-0", "+0", "7", "-7", "+7", "007", "+007", "-007", num(hi), "+" + num(hi), num(hi + 1), "000" + num(hi),
              "-", "+", "1x", "-x", "x1", "1 ", " 1", "1-", "--1", "+-1", "1_0", "\x121"]
         if sg:
             t += [num(lo), num(lo - 1), "-000" + num(-lo), num(lo + 1)]
@@ -190,7 +191,7 @@ def sign_rows(K, A):
 
     for radix in (10, 16, 2, 36, 8):
         reps_s, reps_b = [], []
-        for j in range(40):
+        for j in range(41):
             def env_s(W, j=j, radix=radix):
                 tx = texts(W, radix)
                 return {0: S_(tx[j % len(tx)]), 1: PI("u32", radix)}
@@ -211,9 +212,12 @@ def sign_rows(K, A):
             reps_s.append(("r%d_t%d" % (radix, j), env_s, exp_s))
             reps_b.append(("r%d_t%d" % (radix, j), env_b, exp_b))
         out += core.g_row(K, PROP, inh(A, "from_str_radix"), reps_s, tag="sign")
+        ntf = tr(A, "num_traits::Num", [], "from_str_radix")
+        if K.F.lookup(ntf) is not None:
+            out += core.g_row(K, PROP, ntf, reps_s, tag="sign")      # the num-traits entry point accepts the same language
         out += core.g_row(K, PROP, inh(A, "parse_bytes"), reps_b, tag="sign")
     reps_f = []
-    for j in range(40):
+    for j in range(41):
         def env_f(W, j=j):
             tx = texts(W, 10)
             return {0: S_(tx[j % len(tx)])}
@@ -223,5 +227,11 @@ def sign_rows(K, A):
             r = reference(W, text, 10)
             return ("okv", W.wrap(A, r[1])) if r[0] == "ok" else ("err_kind", r[1])
         reps_f.append(("t%d" % j, env_f, exp_f))
-    out += core.g_row(K, PROP, tr(A, "core::str::FromStr", [], "from_str"), reps_f, tag="sign")
+    # the trait entry point also at digit count 1 (a one-digit type is where a digit-typed shortcut would differ)
+    old = core.WORLDS_FOR
+    core.WORLDS_FOR = lambda f: (1, 2, 3)
+    try:
+        out += core.g_row(K, PROP, tr(A, "core::str::FromStr", [], "from_str"), reps_f, tag="sign")
+    finally:
+        core.WORLDS_FOR = old
     return out
